@@ -34,7 +34,7 @@ def index_lexemes():
            "CONSTANT W = %d\nCONSTANT Starts <- StartsDef\nINIT Init\nNEXT Next\nCONSTRAINT LexStop\n" % w)
         vlib.write(os.path.join(d, "MC_BitSetLex.tla"),
                    vlib.read(os.path.join(d, "MC_BitSetLex.tla")).replace("====", "LexStop == TLCGet(\"level\") < 2\n===="))
-        r = tlc("MC_BitSetLex", cwd=d, workers=1, xmx="1g", timeout=120)
+        r = tlc("MC_BitSetLex", cwd=d, workers=1, xmx="1g", timeout=600)
         recs = [x for x in r.records if x.get("kind") == "lex" and x["w"] == w]
         if not recs or len(recs[0]["lex"]) != w:
             raise vlib.InfraError("BitSet.tla gave no index lexemes for width %d:\n%s" % (w, r.raw[-800:]))
@@ -142,7 +142,7 @@ def run(v, tier, seed):
         d = os.path.join(wd, "mc%d" % w)
         mc(d, name, "BitSet", "StartsDef == %s\nOneStepEmit == IF TLCGet(\"level\") < 2 THEN EmitState ELSE FALSE\n" % starts,
            "CONSTANT W = %d\nCONSTANT Starts <- StartsDef\nINIT Init\nNEXT Next\nCONSTRAINT %s\n%s" % (w, "OneStepEmit" if cons else "EmitState", INVS))
-        return w, tlc(name, cwd=d, workers=1, xmx="4g", timeout=600)
+        return w, tlc(name, cwd=d, workers=1, xmx="4g", timeout=2400)
 
     for w, r in vlib.parallel(jobs, tlc_job):
         if not r.ok:
